@@ -38,6 +38,7 @@ type GlobalVar struct {
 type Facts struct {
 	Codec     map[string]*FuncFacts `json:"codec"`
 	LockProgs map[string][]string   `json:"lock_progs"` // registry functions: micro-operations in order
+	LockStmts map[string][]string   `json:"lock_stmts"` // registry functions: structured statements (LockProg.Stmt)
 	CalcFacts map[string][]string   `json:"calc"`       // per Calc method: calls made on its argument
 	Algs      map[string]string     `json:"algorithms"` // service type -> Algorithm() literal
 	InitRegs  []string              `json:"init_registrations"`
@@ -45,6 +46,7 @@ type Facts struct {
 	Globals   []GlobalVar           `json:"globals"`
 	Callers   map[string][]string   `json:"callers_of_mutators"` // mutator function -> functions that call it
 	GoStmts   []string              `json:"go_statements"`       // `go` statements / sync.Pool uses in non-test code
+	ProtoDSL  map[string]string     `json:"proto_dsl"`           // <module>/Makefile: PROTO_DSL (which protocol definition the generated code claims)
 }
 
 func parseDir(dir string) []*ast.File {
@@ -73,7 +75,7 @@ func add(l *[]string, s string) {
 }
 
 func extractFacts(root string) *Facts {
-	fx := &Facts{Codec: map[string]*FuncFacts{}, LockProgs: map[string][]string{}, CalcFacts: map[string][]string{}, Algs: map[string]string{},
+	fx := &Facts{Codec: map[string]*FuncFacts{}, LockProgs: map[string][]string{}, LockStmts: map[string][]string{}, CalcFacts: map[string][]string{}, Algs: map[string]string{},
 		Imports: map[string][]string{}, Callers: map[string][]string{}}
 	dirs := map[string]string{"codec": "codec"}
 	for _, p := range pkgs {
@@ -242,7 +244,22 @@ func extractFacts(root string) *Facts {
 			fx.Globals = append(fx.Globals, *globals[k])
 		}
 	}
-	_ = os.Stderr
+	fx.ProtoDSL = map[string]string{}
+	mks, _ := filepath.Glob(filepath.Join(root, "*", "Makefile"))
+	for _, mk := range mks {
+		b, err := os.ReadFile(mk)
+		if err != nil {
+			continue
+		}
+		for _, line := range strings.Split(string(b), "\n") {
+			if strings.HasPrefix(line, "PROTO_DSL") {
+				parts := strings.SplitN(line, ":=", 2)
+				if len(parts) == 2 {
+					fx.ProtoDSL[filepath.Base(filepath.Dir(mk))] = filepath.Base(strings.TrimSpace(parts[1]))
+				}
+			}
+		}
+	}
 	return fx
 }
 
@@ -371,6 +388,7 @@ func codecFuncFacts(fx *Facts, fd *ast.FuncDecl, fname string, globals map[strin
 	switch fname {
 	case "Registry", "Get", "Remove", "Clear":
 		fx.LockProgs[fname] = lockProgram(fd)
+		fx.LockStmts[fname] = lockStmts(fd)
 	}
 	if fd.Name.Name == "Algorithm" && fd.Recv != nil && len(fd.Body.List) == 1 {
 		if r, ok := fd.Body.List[0].(*ast.ReturnStmt); ok && len(r.Results) == 1 {
@@ -488,4 +506,50 @@ func lockProgram(fd *ast.FuncDecl) []string {
 	}
 	walk(fd.Body, false)
 	return prog
+}
+
+// lockStmts: the body of a registry function as a structured statement list (the `Stmt` language of
+// lean/FinProto/LockProg.lean). The type-assertion wrapper of Registry is flattened; an unrecognised statement is "opaque".
+func lockStmts(fd *ast.FuncDecl) []string {
+	stmts := fd.Body.List
+	// Registry: `if cs, ok := service.(interface{ Algorithm() string }); ok { BODY }; return false`
+	if len(stmts) == 2 {
+		if is, ok := stmts[0].(*ast.IfStmt); ok && is.Init != nil && strings.Contains(src2(is.Init), "service.(interface{ Algorithm() string })") &&
+			src2(is.Cond) == "ok" && is.Else == nil && src2(stmts[1]) == "return false" {
+			stmts = is.Body.List
+		}
+	}
+	var out []string
+	for _, s := range stmts {
+		t := src2(s)
+		switch {
+		case strings.HasSuffix(t, ".mu.Lock()") && !strings.HasPrefix(t, "defer"):
+			out = append(out, "lock")
+		case strings.HasSuffix(t, ".mu.RLock()") && !strings.HasPrefix(t, "defer"):
+			out = append(out, "rlock")
+		case strings.HasPrefix(t, "defer ") && strings.HasSuffix(t, ".mu.Unlock()"):
+			out = append(out, "deferUnlock")
+		case strings.HasPrefix(t, "defer ") && strings.HasSuffix(t, ".mu.RUnlock()"):
+			out = append(out, "deferRUnlock")
+		case strings.HasPrefix(t, "if _, exists := ") && strings.Contains(t, ".cache[") && strings.HasSuffix(t, "; exists { return false }"):
+			out = append(out, "ifExistsRetFalse")
+		case strings.HasPrefix(t, "if service, exists := ") && strings.Contains(t, ".cache[") && strings.HasSuffix(t, "; exists { return service, exists }"):
+			out = append(out, "ifExistsRetLoaded")
+		case strings.Contains(t, ".cache[") && strings.HasSuffix(t, "] = service"):
+			out = append(out, "store")
+		case strings.HasPrefix(t, "delete(") && strings.Contains(t, ".cache, "):
+			out = append(out, "delete")
+		case strings.HasSuffix(t, ".cache = make(map[string]any)"):
+			out = append(out, "replace")
+		case t == "return true":
+			out = append(out, "retTrue")
+		case t == "return false":
+			out = append(out, "retFalse")
+		case t == "return nil, false":
+			out = append(out, "retNone")
+		default:
+			out = append(out, "opaque")
+		}
+	}
+	return out
 }
